@@ -22,10 +22,11 @@ from typing import Annotated, Any, Dict, List, Optional, Union  # noqa: F401  (u
 import pydantic
 
 import vloop
-from taskiq import AsyncBroker, Context, TaskiqDepends, async_shared_broker  # noqa: F401
+from taskiq import AckableMessage, AsyncBroker, Context, TaskiqDepends, async_shared_broker  # noqa: F401
 from taskiq.brokers.inmemory_broker import InMemoryBroker, InmemoryResultBackend
 from taskiq.compat import parse_obj_as
 from taskiq.formatters.json_formatter import JSONFormatter
+from taskiq.message import BrokerMessage
 from taskiq.receiver import Receiver, params_parser
 from taskiq.serializers.json_serializer import JSONSerializer
 from taskiq.serializers.pickle import PickleSerializer
@@ -124,9 +125,18 @@ DCS = {"D1": D1, "D2": D2}
 
 
 # --------------------------------------------------------------------------- canonical form of python values
+class Frozen:
+    """canonical form of a value, taken at the entry of a task function that goes on to change its arguments in place"""
+
+    def __init__(self, c):
+        self.c = c
+
+
 def canon(v):
     if v is None:
         return ["none"]
+    if isinstance(v, Frozen):
+        return v.c
     if v is DFLT:
         return ["default"]
     if isinstance(v, DepVal):
@@ -222,8 +232,100 @@ def source(case):
             s += " = " + dflt
         parts.append(s)
     ret = " -> " + ANN_SRC[case["ret"]] if case.get("ret") else ""
-    return "%sdef f(%s)%s:\n    CAP.append(dict(locals()))\n" % ("async " if case.get("async", True) else "",
-                                                               ", ".join(parts), ret)
+    body = "    CAP.append(dict(locals()))\n"
+    if case.get("mutate"):
+        # a task function that works on its arguments IN PLACE (they are its own, decoded from the wire).  What arrived is
+        # recorded at entry, in canonical form, BEFORE anything is changed.
+        body = "    _seen = dict(locals())\n    CAP.append(ENTRY(_seen))\n    MUTATE(%r, _seen, CAP)\n" % case["mutate"]
+    return "%sdef f(%s)%s:\n%s" % ("async " if case.get("async", True) else "", ", ".join(parts), ret, body)
+
+
+class CapList(list):
+    """what the bodies of one generated function recorded at entry; .mut: per execution, how many containers / objects
+    among its arguments the body then changed in place"""
+
+    def __init__(self):
+        super().__init__()
+        self.mut = []
+
+
+def ENTRY(seen):  # noqa: N802
+    out = {}
+    for k, v in seen.items():
+        if type(v) is tuple:                 # *args
+            out[k] = tuple(Frozen(canon(x)) for x in v)
+        elif type(v) is dict:                # a dict argument or **kwargs: `call` reads either through canon / .items()
+            out[k] = {n: Frozen(canon(x)) for n, x in v.items()}
+        else:
+            out[k] = Frozen(canon(v))
+    return out
+
+
+MUTATIONS = ["grow", "shrink", "clear", "reverse", "overwrite", "sort"]
+
+
+def mutate(v, mode):
+    """change `v` in place, all the way down, the way a task function may treat its own arguments; returns how many
+    containers / objects were changed.  Never raises."""
+    n = 0
+    if isinstance(v, list):
+        for x in list(v):
+            n += mutate(x, mode)
+        if mode == "grow":
+            v.append("mutated")
+        elif mode == "shrink" and v:
+            v.pop()
+        elif mode == "clear" and v:
+            v.clear()
+        elif mode == "reverse" and len(v) > 1:
+            v.reverse()
+        elif mode == "overwrite" and v:
+            v[0] = ["mutated", v[0]]
+        elif mode == "sort" and len(v) > 1:
+            v.sort(key=lambda x: json.dumps(canon(x), sort_keys=True), reverse=True)
+            v.insert(0, v.pop())
+        else:
+            return n
+        return n + 1
+    if isinstance(v, dict):
+        for x in list(v.values()):
+            n += mutate(x, mode)
+        if mode in ("grow", "sort"):
+            v["attempts"] = v["attempts"] + 1 if type(v.get("attempts")) is int else 1
+        elif mode == "shrink" and v:
+            v.pop(next(iter(v)))
+        elif mode == "clear" and v:
+            v.clear()
+        elif mode in ("overwrite", "reverse") and v:
+            k = next(iter(v))
+            v[k] = ["mutated", v[k]]
+        else:
+            return n
+        return n + 1
+    if isinstance(v, tuple):
+        return sum(mutate(x, mode) for x in v)
+    fields = None
+    if isinstance(v, pydantic.BaseModel):
+        fields = list(type(v).model_fields)
+    elif dataclasses.is_dataclass(v) and not isinstance(v, type):
+        fields = [f.name for f in dataclasses.fields(v)]
+    if fields:
+        for k in fields:
+            n += mutate(getattr(v, k, None), mode)
+        if mode == "overwrite":
+            try:
+                setattr(v, fields[0], "mutated")
+                n += 1
+            except Exception:  # noqa: BLE001  (frozen class)
+                pass
+    return n
+
+
+def MUTATE(mode, seen, cap):  # noqa: N802
+    n = 0
+    for v in seen.values():
+        n += mutate(v, mode)
+    cap.mut.append(n)
 
 
 class CapBroker(AsyncBroker):
@@ -264,7 +366,7 @@ def py_bind(fn, case, nargs, kwnames):
 
 def define(case, out):
     """exec the generated source of one case; returns (function, the list its body appends locals() to)"""
-    CAP = []
+    CAP = CapList()
     ns = dict(globals())
     ns["CAP"] = CAP
     for p in case["params"]:
@@ -315,14 +417,17 @@ async def trip(case):
                       lambda: Receiver(broker, validate_params=bool(case.get("validate", True))))
 
 
-async def call(case, out, fn, CAP, broker, task, get_receiver, registry=None, worker=None, deliver=None):
+async def call(case, out, fn, CAP, broker, task, get_receiver, registry=None, worker=None, deliver=None, seq=None):
     """one call of `task` through kiq -> wire -> the receiver.  `broker` is the broker the kick lands on.  Ordinary call:
     `fn` (registered with `broker`) is the function under test and `CAP` its capture list.  registry = (defs, target):
     the call is made in a process where several functions are registered (see registry_trip); which of them the receiver
     ran is read off their capture lists (each body appends to its own) and the observation - hints, pydantic's table,
     CPython's binding, received values - is taken against THAT function (against defs[target] when none ran).
     deliver: how the message reaches a receiver when that is not `get_receiver().callback(bytes)` (life-cycle groups: the
-    real InMemoryBroker.kick -> whatever `broker.receiver` is at that moment)."""
+    real InMemoryBroker.kick -> whatever `broker.receiver` is at that moment).
+    seq = (Deliveries, j): the call is step j of a sequence that may deliver one wire message more than once (see
+    redelivery_trip): case["again"] = i - nothing is sent, the broker message of step i is delivered once more;
+    case["task_id"] - sent through task.kicker().with_task_id(..); case["kicker"] = i - through the kicker object of step i."""
     if registry is not None:
         out["executed"], out["judged"] = [], registry[1]
         out["src"], out["hints"] = registry[0][registry[1]][1]["src"], registry[0][registry[1]][1]["hints"]
@@ -337,17 +442,29 @@ async def call(case, out, fn, CAP, broker, task, get_receiver, registry=None, wo
     tf = lambda a: ["dctype"] if isinstance(a, type) else canon(top_form(a))  # noqa: E731
     out["prepared_forms"] = {"args": [tf(a) for a in args], "kwargs": [[k, tf(v)] for k, v in kwargs.items()]}
     nsent, ncap = len(broker.sent), len(broker.captured)
-    try:
-        await task.kiq(*args, **kwargs)
-    except BaseException as e:  # noqa: BLE001
-        out["kiq"] = "raised:" + type(e).__name__
-        out["kiq_msg"] = str(e)[:200]
-        return out
+    if case.get("again") is not None:
+        bm, captured = seq[0].sent[case["again"]]       # a redelivery: the broker message of an earlier step, not sent again
+    else:
+        try:
+            if case.get("kicker") is not None:
+                await seq[0].kickers[case["kicker"]].kiq(*args, **kwargs)
+            elif case.get("task_id") is not None:
+                kicker = task.kicker().with_task_id(case["task_id"])
+                seq[0].kickers[seq[1]] = kicker
+                await kicker.kiq(*args, **kwargs)
+            else:
+                await task.kiq(*args, **kwargs)
+        except BaseException as e:  # noqa: BLE001
+            out["kiq"] = "raised:" + type(e).__name__
+            out["kiq_msg"] = str(e)[:200]
+            return out
+        if len(broker.sent) != nsent + 1 or len(broker.captured) != ncap + 1:
+            raise RuntimeError("one kiq() sent %d messages / dumped %d" % (len(broker.sent) - nsent, len(broker.captured) - ncap))
+        bm, captured = broker.sent[-1], broker.captured[-1]
+        if seq is not None:
+            seq[0].sent[seq[1]] = (bm, captured)
     out["kiq"] = "ok"
-    if len(broker.sent) != nsent + 1 or len(broker.captured) != ncap + 1:
-        raise RuntimeError("one kiq() sent %d messages / dumped %d" % (len(broker.sent) - nsent, len(broker.captured) - ncap))
-    bm = broker.sent[-1]
-    whole, pargs, pkwargs, message = broker.captured[-1]
+    whole, pargs, pkwargs, message = captured
     out["prepared"] = {"args": pargs, "kwargs": pkwargs}
     out["wire_type"] = type(bm.message).__name__
     loaded = broker.formatter.loads(bm.message)
@@ -391,16 +508,35 @@ async def call(case, out, fn, CAP, broker, task, get_receiver, registry=None, wo
         return parse_obj_as(annot, value)
 
     exc = None
+    how = case.get("how")
+    data = bm.message
+    if seq is not None:
+        out["same_bytes_delivered_before"], out["mutated_by_earlier_deliveries"] = seq[0].seen.get(bytes(data), [0, 0])
+    if how in ("equal_copy", "ackable_copy"):
+        data = bytes(bytearray(data))                  # equal bytes, another object
+        if data is bm.message:
+            raise RuntimeError("no distinct copy of the wire bytes")
     params_parser.parse_obj_as = logging_parse_obj_as
     try:
-        if deliver is None:
-            await receiver.callback(bm.message)
+        if deliver is not None:
+            await deliver(bm if data is bm.message else BrokerMessage(task_id=bm.task_id, task_name=bm.task_name, message=data,
+                                                                      labels=bm.labels))
+        elif how in ("ackable", "ackable_copy"):
+            acks = []
+            await receiver.callback(AckableMessage(data=data, ack=lambda: acks.append(1)))
+            out["acks"] = len(acks)
         else:
-            await deliver(bm)
+            await receiver.callback(data)
     except BaseException as e:  # noqa: BLE001
         exc = e
     finally:
         params_parser.parse_obj_as = parse_obj_as
+    # the statement's last sentence holds of EVERY decode: the same bytes decoded once more, after the task function has
+    # done whatever it does to the values it was given, still yield a message equal to the encoded one
+    again = broker.formatter.loads(bm.message)
+    out["wire_after"] = {"args": [canon(v) for v in again.args], "kwargs": [[k, canon(v)] for k, v in again.kwargs.items()]}
+    out["roundtrip_after_eq"] = bool(again == message) and canon(again) == whole
+    out["roundtrip_after_rest_eq"] = rest(again) == rest(message)
     if registry is None:
         new = CAP[n0:]
     else:
@@ -413,6 +549,12 @@ async def call(case, out, fn, CAP, broker, task, get_receiver, registry=None, wo
         out["src"], out["hints"] = od["src"], od["hints"]
         new = cap[n0[k]:]
         table_and_bind(case, fn)
+    mut = getattr(CAP if registry is None else cap, "mut", [])      # one entry per execution of a mutating function
+    out["mutated"] = sum(mut[len(mut) - len(new):]) if new and mut else 0
+    if seq is not None:
+        e = seq[0].seen.setdefault(bytes(bm.message), [0, 0])
+        e[0] += 1
+        e[1] += out["mutated"]
     if exc is not None:
         out["outcome"] = "raised"
         out["exc"] = type(exc).__name__
@@ -694,8 +836,70 @@ async def lifecycle_trip(case):
         broker.executor.shutdown()
 
 
+# --------------------------------------------------------------------------- groups of calls with redelivery / re-sends
+# A redelivery case {"redelivery": {"path": "receiver" | "inmemory", "receiver": "shared" | "fresh", "broker": {options}},
+# "steps": [calls], fmt, ser, validate} is a SEQUENCE run in this one process.  Every step is an ordinary call (own
+# signature, arguments, split) and is judged on its own, plus:
+#   "task": i       the step uses the function / task object of step i (the same task called again)
+#   "again": i      nothing is sent: the broker message step i produced is DELIVERED once more (an at-least-once broker
+#                   redelivering an un-acked message; the step carries the arguments of step i).  "how": the very same
+#                   bytes object / an equal copy / wrapped in an AckableMessage (receiver path)
+#   "task_id": s    sent through task.kicker().with_task_id(s) (an idempotency key: a second send with the same id and
+#                   the same arguments produces the same bytes); "kicker": i - through the kicker object made at step i
+#   "mutate": mode  (on the step that defines the function) the body works on its arguments in place after recording them
+# path "receiver": a CapBroker, all tasks registered, then ONE Receiver for the whole sequence as in a worker ("shared")
+# or a new Receiver(broker) for every delivery ("fresh"); bytes -> receiver.callback.  path "inmemory": ONE started
+# InMemoryBroker(cast_types=validate, **options); kick(message) -> its own receiver.
+class Deliveries:
+    def __init__(self):
+        self.sent = {}       # step -> (broker message, what formatter.dumps was given)
+        self.kickers = {}    # step -> kicker object with a custom task id
+        self.seen = {}       # wire bytes -> [deliveries so far, containers changed in place by those executions]
+
+
+async def redelivery_trip(case):
+    conf = (case.get("fmt"), case.get("ser"), bool(case.get("validate", True)))
+    steps, rd = case["steps"], case["redelivery"]
+    for s in steps:
+        if (s.get("fmt"), s.get("ser"), bool(s.get("validate", True))) != conf:
+            raise RuntimeError("a step of a redelivery group has its own formatter / serializer / validate_params")
+    inmem = rd["path"] == "inmemory"
+    broker = make_broker(conf[0], conf[1], LifeBroker(cast_types=conf[2], **rd["broker"]) if inmem else None)
+    state = Deliveries()
+    out = {"steps": []}
+    try:
+        defs = {}
+        for j, st in enumerate(steps):
+            if st.get("task", j) == j and st.get("again") is None:
+                o = {}
+                fn, CAP = define(st, o)
+                defs[j] = (o, fn, CAP, broker.register_task(fn, task_name="t%d" % j))
+        if inmem:
+            await broker.startup()
+        shared = None if inmem else Receiver(broker, validate_params=conf[2])
+        for j, st in enumerate(steps):
+            owner = st.get("task", j)
+            if [p for p in st["params"]] != [p for p in steps[owner]["params"]]:
+                raise RuntimeError("a step that re-uses a task has another signature")
+            if st.get("again") is not None:
+                src = steps[st["again"]]
+                if (st["args"], st["kwargs"], st.get("task", j)) != (src["args"], src["kwargs"], src.get("task", st["again"])):
+                    raise RuntimeError("a redelivery step does not carry the call of the step it redelivers")
+            o, fn, CAP, t = defs[owner]
+            get = (lambda: shared) if rd.get("receiver", "shared") == "shared" else \
+                (lambda: Receiver(broker, validate_params=conf[2]))
+            out["steps"].append(await call(dict(st, mutate=steps[owner].get("mutate")), dict(o), fn, CAP, broker, t, get,
+                                           deliver=broker.deliver if inmem else None, seq=(state, j)))
+        return out
+    finally:
+        if inmem:
+            await broker.shutdown()
+
+
 def run_case(case, opts):
     async def main(loop):
+        if "redelivery" in case:
+            return await redelivery_trip(case)
         if "life" in case:
             return await lifecycle_trip(case)
         if "events" in case:
